@@ -36,6 +36,7 @@ import (
 	"os"
 	"os/exec"
 	"path/filepath"
+	"reflect"
 	"regexp"
 	"runtime/debug"
 	"sort"
@@ -64,12 +65,13 @@ type c08Prog struct {
 }
 
 type c08Obs struct {
-	Circ    string `json:"circ"`
-	Bristol string `json:"bristol"`
-	SSA     string `json:"ssa"`
-	Err     string `json:"err"`
-	SSAText string `json:"ssa_text,omitempty"` // only in the output of the reuse child
-	Eval    string `json:"eval,omitempty"`     // only in the output of the reuse child
+	Circ    string   `json:"circ"`
+	Bristol string   `json:"bristol"`
+	SSA     string   `json:"ssa"`
+	Err     string   `json:"err"`
+	SSAText string   `json:"ssa_text,omitempty"` // only in the output of the reuse child
+	Eval    string   `json:"eval,omitempty"`     // only in the output of the reuse child
+	Mutated []string `json:"mutated,omitempty"`  // exported Params fields changed by this compilation
 	ssaText string
 	circ    *circuit.Circuit
 }
@@ -119,7 +121,17 @@ func c08Hash(b []byte) string {
 }
 
 // c08CompileWith compiles p with the compiler cc (whose Params write SSA to w).
-func c08CompileWith(cc *compiler.Compiler, w *c08Writer, p *c08Prog) (obs c08Obs) {
+func c08CompileWith(cc *compiler.Compiler, params *utils.Params, w *c08Writer, p *c08Prog) (obs c08Obs) {
+	before := c08ParamsSnapshot(params)
+	defer func() {
+		after := c08ParamsSnapshot(params)
+		for f, v := range before {
+			if after[f] != v {
+				obs.Mutated = append(obs.Mutated, f)
+			}
+		}
+		sort.Strings(obs.Mutated)
+	}()
 	w.b = new(bytes.Buffer)
 	c08Quiet(func() {
 		defer func() {
@@ -227,7 +239,8 @@ func c08Instances(ssa string) (names []string, nums []int) {
 // c08Compile: fresh Compiler, fresh Params.
 func c08Compile(p *c08Prog) c08Obs {
 	w := &c08Writer{}
-	return c08CompileWith(compiler.New(c08Params(p, w)), w, p)
+	params := c08Params(p, w)
+	return c08CompileWith(compiler.New(params), params, w, p)
 }
 
 // ---------------------------------------------------------------- child process
@@ -235,10 +248,11 @@ func c08Compile(p *c08Prog) c08Obs {
 // c08ReuseRun: three compilations of p with ONE Compiler instance.
 func c08ReuseRun(p *c08Prog) []c08Obs {
 	w := &c08Writer{}
-	cc := compiler.New(c08Params(p, w))
+	params := c08Params(p, w)
+	cc := compiler.New(params)
 	var out []c08Obs
 	for i := 0; i < 3; i++ {
-		o := c08CompileWith(cc, w, p)
+		o := c08CompileWith(cc, params, w, p)
 		o.SSAText = o.ssaText
 		if o.Err == "" {
 			o.Eval = c08Eval(o.circ)
@@ -1031,6 +1045,190 @@ func c08GenWidthProgram(rng *RNG, idx int) *c08Prog {
 	return &c08Prog{Name: fmt.Sprintf("widths%03d-%s-%s-%s", idx, val, narrowT, wideT), Src: sb.String(), Kind: "const-widths"}
 }
 
+// c08ParamsSnapshot renders every exported field of *utils.Params (pointers: address and pointee,
+// maps and slices: contents, writers: identity) so that a compilation that writes its configuration
+// is seen whatever it compiles next.
+func c08ParamsSnapshot(p *utils.Params) map[string]string {
+	out := map[string]string{}
+	if p == nil {
+		return out
+	}
+	v := reflect.ValueOf(p).Elem()
+	t := v.Type()
+	for i := 0; i < t.NumField(); i++ {
+		f := t.Field(i)
+		if !f.IsExported() {
+			continue
+		}
+		fv := v.Field(i)
+		switch fv.Kind() {
+		case reflect.Ptr:
+			if fv.IsNil() {
+				out[f.Name] = "nil"
+			} else {
+				out[f.Name] = fmt.Sprintf("%p:%+v", fv.Interface(), fv.Elem().Interface())
+			}
+		case reflect.Interface:
+			if fv.IsNil() {
+				out[f.Name] = "nil"
+			} else {
+				out[f.Name] = fmt.Sprintf("%T@%p", fv.Interface(), fv.Interface())
+			}
+		default:
+			out[f.Name] = fmt.Sprintf("%#v", fv.Interface())
+		}
+	}
+	return out
+}
+
+// ---------------------------------------------------------------- histories
+
+// What survives between two compilations in one process: the *utils.Params object (users share it
+// between Compiler instances, e.g. the evaluator loop of apps/garbled), the Compiler object and
+// package-level state.  Pool: small programs whose circuits depend on per-width tuning
+// (multipliers of tuned widths 16-21, 37-41, 71.. and untuned widths 8, 32, 64..), dividers, adders,
+// both targets.  Program B is compiled (i) fresh, (ii) with a new Compiler but the Params object
+// that was used to compile A before, (iii) with the Compiler (and Params) that compiled A before.
+type c08HistProg struct {
+	name string
+	prog *c08Prog
+}
+
+func c08HistoryPool(thorough bool) []c08HistProg {
+	var out []c08HistProg
+	add := func(name, typ, op string, gmw bool) {
+		src := fmt.Sprintf("package main\n\nfunc main(a, b %s) %s {\n\treturn a %s b\n}\n", typ, typ, op)
+		if gmw {
+			name += "-gmw"
+		}
+		out = append(out, c08HistProg{name, &c08Prog{Name: "hist:" + name, Src: src, Kind: "history", GMW: gmw}})
+	}
+	mw := []int{8, 16, 17, 32, 37, 64}
+	if thorough {
+		mw = []int{8, 16, 17, 21, 32, 37, 40, 64, 71, 128}
+	}
+	for _, w := range mw {
+		add(fmt.Sprintf("mul-uint%d", w), fmt.Sprintf("uint%d", w), "*", false)
+	}
+	add("mul-int32", "int32", "*", false)
+	add("mul-int16", "int16", "*", false)
+	for _, w := range []int{8, 16, 32} {
+		add(fmt.Sprintf("div-uint%d", w), fmt.Sprintf("uint%d", w), "/", false)
+	}
+	add("mod-uint16", "uint16", "%", false)
+	add("add-uint16", "uint16", "+", false)
+	add("add-uint32", "uint32", "+", false)
+	add("mul-uint16", "uint16", "*", true)
+	add("mul-uint32", "uint32", "*", true)
+	add("div-uint16", "uint16", "/", true)
+	return out
+}
+
+func c08RunHistories(c *Ctx) {
+	pool := c08HistoryPool(c.Thorough())
+	base := make([]c08Obs, len(pool))
+	mutated := map[string]string{}
+	note := func(o c08Obs, who string) {
+		for _, f := range o.Mutated {
+			if _, ok := mutated[f]; !ok {
+				mutated[f] = who
+			}
+		}
+	}
+	for i, hp := range pool {
+		base[i] = c08Compile(hp.prog)
+		c.nEval++
+		note(base[i], hp.name)
+		c.Hist("kind:history")
+	}
+	differs := func(a, b c08Obs) string {
+		switch {
+		case a.Err != b.Err:
+			return "error-differs"
+		case a.Circ != b.Circ || a.Bristol != b.Bristol:
+			return "circuit-differs"
+		case a.SSA != b.SSA:
+			return "listing-differs"
+		}
+		return ""
+	}
+	// exact pair with fresh state: A then B
+	pair := func(ai, bi int, sameCompiler bool) c08Obs {
+		w := &c08Writer{}
+		params := c08Params(pool[ai].prog, w)
+		cc := compiler.New(params)
+		c08CompileWith(cc, params, w, pool[ai].prog)
+		if !sameCompiler {
+			cc = compiler.New(params)
+		}
+		c.nEval += 2
+		return c08CompileWith(cc, params, w, pool[bi].prog)
+	}
+	reported := map[string]bool{}
+	for _, sameCompiler := range []bool{false, true} {
+		mode := "shared-params"
+		if sameCompiler {
+			mode = "same-compiler"
+		}
+		for ai, A := range pool {
+			w := &c08Writer{}
+			params := c08Params(A.prog, w)
+			cc := compiler.New(params)
+			note(c08CompileWith(cc, params, w, A.prog), A.name)
+			c.nEval++
+			for bi, B := range pool {
+				if bi == ai || B.prog.GMW != A.prog.GMW {
+					continue
+				}
+				if !sameCompiler {
+					cc = compiler.New(params)
+				}
+				o := c08CompileWith(cc, params, w, B.prog)
+				c.nEval++
+				note(o, B.name)
+				c.Eval("history:"+mode+":"+A.name+";"+B.name, true)
+				d := differs(base[bi], o)
+				if d == "" {
+					continue
+				}
+				// attribute: does the exact pair (fresh Params: A, then B) reproduce it?
+				exact := pair(ai, bi, sameCompiler)
+				de := differs(base[bi], exact)
+				key := "c08:history:" + mode + ":" + d
+				what := fmt.Sprintf("%s compiled after %s with the same Params object", B.name, A.name)
+				if sameCompiler {
+					what += " and the same Compiler"
+				} else {
+					what += " (new Compiler)"
+				}
+				what += " differs from its compilation with fresh Params"
+				if de == "" {
+					what += " (seen after the sequence " + A.name + ", ... ; the pair alone does not reproduce it)"
+				}
+				if reported[key+B.name] { // one report per (mode, B): the first A that disturbs B
+					continue
+				}
+				reported[key+B.name] = true
+				c.Fail(key, what, map[string]interface{}{
+					"program_A": A.prog, "program_B": B.prog, "mode": mode, "pair_alone_reproduces": de != "",
+					"B_fresh":                    map[string]string{"circ": base[bi].Circ, "ssa": base[bi].SSA, "err": base[bi].Err, "result_on_3_5": c08Eval(base[bi].circ)},
+					"B_after_A":                  map[string]string{"circ": o.Circ, "ssa": o.SSA, "err": o.Err, "result_on_3_5": c08Eval(o.circ)},
+					"params_fields_changed_by_A": base[ai].Mutated})
+			}
+		}
+	}
+	var fields []string
+	for f := range mutated {
+		fields = append(fields, f)
+	}
+	sort.Strings(fields)
+	for _, f := range fields {
+		c.Fail("c08:params-mutated-by-compilation:"+f, fmt.Sprintf("compiling %s changes the exported field %s of its *utils.Params", mutated[f], f),
+			map[string]interface{}{"program": mutated[f], "field": f})
+	}
+	c.Hist(fmt.Sprintf("history-pool:%d", len(pool)))
+}
+
 // ---------------------------------------------------------------- probes for further sources of variation
 
 const c08TwoFilesMain = "package main\n\nimport (\n\t\"twofiles\"\n)\n\nfunc main(a, b uint8) uint8 {\n\treturn a + b + twofiles.A[1] + twofiles.B[2]\n}\n"
@@ -1134,14 +1332,14 @@ func c08ProbeSymbolIDs(c *Ctx) {
 	// shared Params: A then B
 	w := &c08Writer{}
 	shared := c08Params(progB, w)
-	c08CompileWith(compiler.New(shared), w, progA)
-	o3 := c08CompileWith(compiler.New(shared), w, progB)
+	c08CompileWith(compiler.New(shared), shared, w, progA)
+	o3 := c08CompileWith(compiler.New(shared), shared, w, progB)
 	// preset table equal to what A left behind
 	w2 := &c08Writer{}
 	preset := c08Params(progB, w2)
 	preset.SymbolIDs["alpha"] = 0
 	preset.SymbolIDs["gamma"] = 1
-	o4 := c08CompileWith(compiler.New(preset), w2, progB)
+	o4 := c08CompileWith(compiler.New(preset), preset, w2, progB)
 	c.nEval += 3
 	if o3.key() != o4.key() {
 		c.Fail("c08:Params.SymbolIDs:same-table-different-output", "two compilations whose Params hold the same SymbolIDs table differ",
@@ -1483,7 +1681,11 @@ func runC08(c *Ctx) error {
 		}
 	}
 
+	// ---- histories over the state that survives a compilation (reported first)
+	c08RunHistories(c)
+
 	// ---- oracle and correspondence cases
+	paramsMutReported := map[string]bool{}
 	for ri, r := range results {
 		p := r.p
 		c.Hist("kind:" + p.Kind)
@@ -1568,6 +1770,31 @@ func runC08(c *Ctx) error {
 					"output_b":        map[string]string{"circ": b.Circ, "bristol": b.Bristol, "ssa": b.SSA, "err": b.Err},
 					"result_a_on_3_5": c08Eval(a.circ), "result_b_on_3_5": c08Eval(b.circ),
 					"ssa_diff_excerpt": c08DiffExcerpt(a.ssaText, b.ssaText)})
+		}
+
+		// property oracle 4: a compilation does not write its configuration (SymbolIDs is the
+		// documented symbol table of intern(): parameter state by design)
+		{
+			mut := map[string]bool{}
+			for _, o := range append(append([]c08Obs(nil), r.fresh...), r.reused...) {
+				for _, f := range o.Mutated {
+					if f != "SymbolIDs" {
+						mut[f] = true
+					}
+				}
+			}
+			var fields []string
+			for f := range mut {
+				fields = append(fields, f)
+			}
+			sort.Strings(fields)
+			for _, f := range fields {
+				if !paramsMutReported[f] {
+					paramsMutReported[f] = true
+					c.Fail("c08:params-mutated-by-compilation:"+f, fmt.Sprintf("compiling %s changes the exported field %s of its *utils.Params", p.Name, f),
+						map[string]interface{}{"program": p, "field": f})
+				}
+			}
 		}
 
 		// property oracle 3: the sort key of Program.DefineConstants (the name) is unique in the
